@@ -7,7 +7,7 @@ from . import AnalysisError
 
 VERIF = os.path.dirname(os.path.dirname(os.path.abspath(__file__)))
 KNOWN_FINDINGS = os.path.join(VERIF, "known_findings.json")
-EVIDENCE_DIR = os.path.join(VERIF, "evidence")
+EVIDENCE_DIR = os.environ.get("LBSA_EVIDENCE_DIR") or os.path.join(VERIF, "evidence")
 
 
 class Ctx:
@@ -35,12 +35,21 @@ class Ctx:
             self.violations.append(rec)
         return ok
 
-    def floor(self, rule, what, found, minimum):
-        """a rule instance must match at least `minimum` constructs, otherwise the checker is
-        looking at code it does not understand: analysis error, never a silent pass"""
-        if found < minimum:
+    def floor(self, rule, what, found, minimum, site=None, func=None, hard=False):
+        """a rule instance must match at least `minimum` constructs.  The enclosing anchor (function,
+        class, module) exists — otherwise prog.func() already raised ANALYSIS-ERROR — so fewer matches
+        mean the mechanism the rule looks for was removed or rewritten beyond recognition: that is
+        reported as a violation naming the missing construct, never a silent (vacuous) pass.
+        hard=True keeps the old behaviour (analysis error) for sites that are pure bookkeeping."""
+        if found >= minimum:
+            return True
+        if hard:
             raise AnalysisError(f"{rule}: {what}: matched {found} construct(s), expected at least {minimum} "
                                 f"(anchor moved or idiom not recognised)")
+        self.ob(rule, False, site or "lbry:0", f"mechanism present: {what}",
+                detail=f"matched {found} construct(s), expected at least {minimum}: the construct was removed or no longer "
+                       f"has the shape the property relies on", func=func, key=f"{rule}|{func or ''}|missing|{what}")
+        return False
 
     def note(self, text):
         self.notes.append(text)
